@@ -127,6 +127,8 @@ def bits_to_bytes(bits):
 
 def encode_imm32(v):
     """Bundle 32 bit value into 4 bits rotation and 8 bits value"""
+    if not 0 <= v < (1 << 32):
+        raise ValueError(f"Invalid value {v}")
     for i in range(16):
         v2 = rotate_left(v, i * 2)
         if (v2 & 0xFFFFFF00) == 0:
